@@ -131,6 +131,7 @@ def r02_1(prog, out):
 
 @rule("C02", "R02.2", "modify replaces the expiry entry using the old key, then re-inserts the new one", floor=1)
 @rule("C05", "R02.2", "modify replaces the expiry entry using the old key, then re-inserts the new one", floor=1)
+@rule("C04", "R02.2", "modify replaces the expiry entry using the old key, then re-inserts the new one", floor=1)
 def r02_2(prog, out):
     A = prog.anchors
     tracker = A.ty("OutstandingMessageTracker")
